@@ -19,7 +19,7 @@ from ..rig import OID, World, drive, drive_agen
 PROP = "C09"
 CHILD_ENV = {"VF_VIRTUAL_MONOTONIC": "1"}  # a client can grow old without anybody waiting
 LEVEL = "fault_enumeration"
-SHARDS = {"quick": 4, "thorough": 16}
+SHARDS = {"quick": 8, "thorough": 16}
 TIME_CAP = {"quick": 55, "thorough": 1500}
 RULE = (
     "Corpus: operations {get, multiget, getnext, bulkget, set} x response contents x {MD5, "
@@ -443,9 +443,11 @@ def run(R):
     R.notes["authentic_responses"] = len(tl)
     idx = 0
     complete = True
+    # pass 1 - every target: the structured forgeries and the multi-step attacks (never cut
+    # by the time cap); pass 2 - the bit flips, under the cap
+    made = {}
     for ti, (level, op, var, k, with_flips) in enumerate(tl):
-        t = Target(level, op, var, k)
-        priv = level.endswith("-priv")
+        t = made[ti] = Target(level, op, var, k)
         R.notes.setdefault("response_sizes", {})["%s/%s/%d" % (level, op, var)] = len(t.resp)
         # sanity: the untouched authentic response is accepted
         kind, val, _ = t.try_response(t.resp)
@@ -453,23 +455,6 @@ def run(R):
             R.inconclusive("authentic response not accepted on replay (%s/%s): %r" % (level, op, val))
             return
         R.mon["authentic_replay_accepted"] += 1
-        plans = [("flip", 0), ("flip+clear-auth", 1)] if with_flips else []
-        if priv and with_flips:
-            plans.append(("flip+clear-auth+priv", 3))
-        for name, clear in plans:
-            for pos, data in flips(t, clear):
-                idx += 1
-                if not R.mine(idx):
-                    continue
-                if not R.time_left():
-                    complete = False
-                    break
-                kind, val, steps = t.try_response(data)
-                R.evaluations += 1
-                R.mon["flip_trials" if clear == 0 else "flip_clearauth_trials"] += 1
-                if pos % 64 == 0:
-                    R.fingerprints.add("%s/%s/%d/%s/%d" % (level, op, var, name, pos // 64))
-                judge(R, t, name, pos, data, kind, val, steps)
         for name, data in forgeries(t):
             idx += 1
             if not R.mine(idx):
@@ -491,6 +476,30 @@ def run(R):
             R.case(("attack", level, op, var, name), True)
             R.mon["multistep_attack_trials"] += 1
             judge(R, t, name, None, b"", kind, val, steps)
+    for ti, (level, op, var, k, with_flips) in enumerate(tl):
+        if not with_flips:
+            continue
+        t = Target(level, op, var, k)  # a fresh client (the attacks above aged / disturbed the first one)
+        priv = level.endswith("-priv")
+        plans = [("flip", 0), ("flip+clear-auth", 1)]
+        if priv:
+            plans.append(("flip+clear-auth+priv", 3))
+        for name, clear in plans:
+            for pos, data in flips(t, clear):
+                idx += 1
+                if not R.mine(idx):
+                    continue
+                if not R.time_left():
+                    complete = False
+                    break
+                kind, val, steps = t.try_response(data)
+                R.evaluations += 1
+                R.mon["flip_trials" if clear == 0 else "flip_clearauth_trials"] += 1
+                if pos % 64 == 0:
+                    R.fingerprints.add("%s/%s/%d/%s/%d" % (level, op, var, name, pos // 64))
+                judge(R, t, name, pos, data, kind, val, steps)
+            if not complete:
+                break
         if not complete:
             break
     R.exhaustive = complete
